@@ -29,7 +29,8 @@ RULE = ("grammar-directed manifests (1-4 streams, 1-5 blocks of size 0-20 drawn 
         "backslash, backslash-digit sequences, control and non-ASCII bytes, filenames with '/'), every codec run on "
         "each manifest, every (srcpath, relocate) pair over the manifest's directories/files for Extract; direct "
         "binary-search cases over non-decreasing offset arrays; escape round trips on random byte strings; "
-        "grammar-valid manifests with a file/directory conflict; a "
+        "grammar-valid manifests with a file/directory conflict; streams with block sizes near 2^63 (lengths up to "
+        "and beyond 2^64); a "
         "malformed stream (arbitrary bytes over a manifest-like alphabet and single-token mutations of valid "
         "manifests incl. 2^31/2^63/2^64 boundary numbers). A case is non-trivial when its manifest is valid and "
         "has a multi-segment file, a zero-length block or an escaped name, or when it is malformed and rejected; "
@@ -40,8 +41,9 @@ ASSUMPTIONS = [
     "because the Go codecs (\\\\ -> \\) and the Python SDK (no \\\\) disagree there",
     "a manifest in which one path is both a file and a directory is outside 'valid' (the grammar is silent; a "
     "filesystem cannot represent it)",
-    "the same digest always carries the same size within one manifest (true of real MD5 digests); stream "
-    "lengths and file-token ends stay below 2^63",
+    "the same digest always carries the same size within one manifest (true of real MD5 digests); block sizes "
+    "stay below 2^31 (the collection filesystem reads them as int32); manifests with larger sizes are held to the "
+    "no-panic clause only",
     "block contents are synthetic: byte j of a block with hash token h is (h[j mod 32] + 31 j) mod 256",
 ]
 TRUSTED = [
@@ -58,7 +60,7 @@ DRIVERS = {
     "a": {"kind": "gotest", "pkg": "sdk/go/arvados", "test": "TestVerifC10", "isolate": True,
           "timeout": 300, "case_timeout": 30},
     # same package and test as "m"; takes the few cases that can crash the process (known finding
-    # F10a) so that a crash re-runs only this small shard case by case
+    # F10d) so that a crash disturbs only this small shard
     "mx": {"kind": "gotest", "pkg": "sdk/go/manifest", "test": "TestVerifC10", "isolate": True,
            "timeout": 300, "case_timeout": 30, "shards": 2},
     "p": {"kind": "python", "script": "harness/py/c10_ranges_driver.py", "timeout": 300},
@@ -77,9 +79,9 @@ def channel(case):
 
 @functools.lru_cache(maxsize=8192)
 def _has_big_number(hexm):
-    """a file token with a number of 19 or more digits (candidates for uint64 overflow)"""
+    """a number of 19 or more digits (candidates for uint64 overflow: file tokens, block sizes)"""
     try:
-        return re.search(rb"(^|[ \n:])[0-9]{19,}:", unhex(hexm)) is not None
+        return re.search(rb"[0-9]{19,}", unhex(hexm)) is not None
     except Exception:
         return False
 
@@ -235,8 +237,9 @@ def ref_of(hexm):
     if streams is None:
         return None
     files = ref_resolve(streams)
-    return {"streams": streams, "files": files, "conflict": tree_conflict(list(files)),
-            "bytes": {p: seg_bytes(s) for p, s in files.items()}}
+    huge = any(sz >= 1 << 31 for _, bl, _ in streams for _, sz in bl)
+    return {"streams": streams, "files": files, "conflict": tree_conflict(list(files)), "huge": huge,
+            "bytes": {} if huge else {p: seg_bytes(s) for p, s in files.items()}}
 
 
 def strip_hints(txt):
@@ -371,6 +374,8 @@ def oracle(case, impl):
         txt = unhex(f[1])
         if ref is None:
             return oracle_malformed(op, txt, impl)
+        if ref["huge"]:
+            return None     # block sizes beyond what the codecs' integer types hold: only the no-panic clause (above)
         if op == "a.pdh":
             pdh, sds = impl.split(" ")
             st = strip_hints(txt)
@@ -556,38 +561,32 @@ def compare(case, impl, model):
 # ----------------------------------------------------------------------------- findings
 
 def finding_of(case, impl, why):
-    """Known findings, matched by the specific witness shape:
-    F10a  manifest package, a file token whose pos+size wraps around 2^64 (panic in the iterator goroutine, or the
-          token silently applied as empty)
-    F10b  collection filesystem loader, a file token whose offset+length wraps around 2^63 (token applied as empty)
-    F10c  manifest package, a stream/file name that path.Clean alters (empty, "." or ".." component, trailing "/"):
-          accepted, content silently dropped"""
+    """Known finding, matched by the specific witness shape:
+    F10d  manifest package, a stream whose block sizes add up to 2^64 or more: the offsets array wraps around and the
+          segment iterator panics in its goroutine (process crash)"""
     f = case.split(" ")
-    if len(f) < 2 or f[0] not in ("m.seg", "m.ext", "a.fs"):
+    if len(f) < 2 or f[0] not in ("m.seg", "m.ext", "m.iter"):
         return None
     try:
         txt = unhex(f[1])
     except Exception:
         return None
-    crash = impl.startswith("CRASH")
-    partial = bool(why) and ("exceeds" in why or "partially applied" in why)
-    if f[0] in ("m.seg", "m.ext") and (crash or partial) and _has_overflow_token(txt, 1 << 64):
-        return "F10a"
-    if f[0] == "a.fs" and partial and _has_overflow_token(txt, 1 << 63):
-        return "F10b"
-    if f[0] == "m.seg" and bool(why) and "partially applied" in why and _has_unclean_name(txt):
-        return "F10c"
+    if impl.startswith("CRASH") and _has_wrapping_stream(txt):
+        return "F10d"
     return None
 
 
-def _has_overflow_token(txt, bound):
-    """some file token pos:size:name with pos, size each below `bound` but pos+size >= bound"""
-    for t in re.split(rb"[ \n]", txt):
-        m = FILE_RE.match(t)
-        if m:
-            p, s = int(m.group(1)), int(m.group(2))
-            if p < bound and s < bound and p + s >= bound:
-                return True
+def _has_wrapping_stream(txt):
+    """a line whose locator tokens (as the manifest package reads them) have sizes adding up to >= 2^64"""
+    for line in txt.split(b"\n"):
+        total = 0
+        for t in line.split(b" ")[1:]:
+            m = re.match(rb"^[0-9a-fA-F]{32}\+([0-9]+)(\+[A-Z][A-Za-z0-9@_-]*)*$", t)
+            if not m:
+                break
+            total += int(m.group(1))
+        if total >= 1 << 64:
+            return True
     return False
 
 
@@ -752,6 +751,19 @@ def gen_conflict(rng):
     return b"".join(l + b"\n" for l in lines)
 
 
+def gen_huge(rng):
+    """grammar-valid manifest whose block sizes are near 2^63: stream lengths reach and pass 2^64"""
+    nb = rng.randint(2, 5)
+    sizes = [rng.choice([2**63 - 1, 2**63 - 1, 2**63 - 2, 2**62, 2**62 + 1, 0, 2, 3, 7]) for _ in range(nb)]
+    toks = [b"."] + [("%s+%d" % (EMPTY if sz == 0 else gen_hash(rng), sz)).encode() for sz in sizes]
+    total = sum(sizes) % 2**64
+    for _ in range(rng.randint(1, 4)):
+        a = rng.choice([0, 0, 1, 2, 3, max(0, total - 1)])
+        ln = rng.choice([0, 1, 2, 3])
+        toks.append(b"%d:%d:f%d" % (min(a, total), min(ln, max(0, total - min(a, total))), rng.randint(0, 2)))
+    return b" ".join(toks) + b"\n"
+
+
 BIGNUMS = [2**31 - 1, 2**31, 2**32, 2**63 - 1, 2**63, 2**64 - 2, 2**64 - 1, 2**64, 10**30]
 
 
@@ -886,6 +898,10 @@ def generate(rng, tier):
     for i in range(nconf):
         h = hx(gen_conflict(rng))
         out += [f"m.seg {h}", f"a.fs {h}", f"a.pdh {h}", f"m.ext {h} 2e 2e"]
+    for i in range(30 if quick else 600):
+        h = hx(gen_huge(rng))
+        # (no m.ext here: normalizedText prints stream offsets as int64, which the model does not wrap)
+        out += [f"m.seg {h}", f"a.fs {h}", f"a.pdh {h}"]
     out += ["m.seg -", "a.fs -", "a.pdh -", "m.ext - 2e 2e", "p.seg -"]
     for _ in range(nmut):
         cases_for_malformed(mutate(rng, rng.choice(valids)), out)
